@@ -43,6 +43,20 @@ theorem same_name {U : FieldOcc → Prop} (hc : Compat s d U) {rt : String} {a b
     simp only [baseConflict, hex, Bool.not_false, Bool.true_and, Bool.or_eq_false_iff] at hbc
     simpa using hbc.1.1
 
+/-- … and identical argument sets (structural equality of the values, locations ignored) -/
+theorem same_args {U : FieldOcc → Prop} (hc : Compat s d U) {rt : String} {a b : FieldOcc} (ha : U a) (hb : U b)
+    (hk : a.node.key = b.node.key) (hpa : PtAdm s rt a.parent) (hpb : PtAdm s rt b.parent) :
+    sameArgsS a.node.args b.node.args = true := by
+  have hnc := hc a b ha hb hk
+  cases hbc : baseConflict (e s d) false a b with
+  | true => exact absurd (PairConflict.base hbc) hnc
+  | false =>
+    have hex : exclOf (e s d) false a b = false := by
+      simp only [exclOf, Bool.false_or]
+      exact not_exclusive s hpa hpb
+    simp only [baseConflict, hex, Bool.not_false, Bool.true_and, Bool.or_eq_false_iff] at hbc
+    simpa using hbc.1.2
+
 /-- the universe one level down: flattened sub-selections of the fields merged under one key at `rt` -/
 def SubU (U : FieldOcc → Prop) (rt key : String) (a' : FieldOcc) : Prop :=
   ∃ a s1, U a ∧ a.node.key = key ∧ PtAdm s rt a.parent ∧ a.node.sel = some s1 ∧ a' ∈ flat (e s d) a.subParent s1
